@@ -463,11 +463,69 @@ def index_feeds_name(ck, S, rid):
     return same
 
 
+def per_date_pattern_is_fresh(ck, S, RULE):
+    """the expression findNextIndexForDate(date) matches the directory entries with is the one for `date`: built in the call from the parameter, or - when it
+    is kept in a data member - rebuilt whenever the date differs.  A member filled from the date under a guard that does not compare dates ("compiled on first
+    use") answers with the pattern of the day it was first asked for: the next index of another day is then wrong and a rotated name is handed out again."""
+    fi = S.m["findNextIndexForDate"]
+    if not fi.params:
+        return
+    dparam = fi.params[0]["decl"]
+    ms = [n for n in fi.calls() if strip_tmpl(n.get("callee") or "").split("::")[-1] in ("match", "globalMatch") and "QRegularExpression" in (n.get("callee") or "")]
+    for m_ in ms:
+        o = skip_copies(deref_local(fi, m_.get("obj"))) if isinstance(m_.get("obj"), dict) else None
+        if not (isinstance(o, dict) and o.get("k") == "member" and o.get("dk") == "field"):
+            continue
+        fld = o.get("name")
+
+        def depends_on_date(e, depth=0, seen=None):
+            seen = seen if seen is not None else set()
+            for x in walk(e):
+                if x.get("k") == "ref" and x.get("decl") == dparam:
+                    return True
+                if x.get("k") == "ref" and x.get("dk") == "local" and x.get("decl") not in seen and depth < 5:
+                    seen.add(x["decl"])
+                    from rules.oth import _stored_values
+                    if any(depends_on_date(w, depth + 1, seen) for w in _stored_values(fi, x["decl"]) if isinstance(w, dict)):
+                        return True
+            return False
+        for a in fi.all_nodes():
+            if not (a.get("k") == "call" and a.get("op") == "=" and a.get("args") and len(a["args"]) == 2):
+                continue
+            l = skip_copies(a["args"][0])
+            if not (l.get("k") == "member" and l.get("name") == fld):
+                continue
+            if not depends_on_date(a["args"][1]):
+                continue
+            guards = [x for x in fi.ancestors(a) if x.get("k") == "if" and isinstance(x.get("cond"), dict)]
+            unguarded_by_date = guards and not any(depends_on_date(x["cond"]) for x in guards)
+            if unguarded_by_date:
+                # the cache may be dropped elsewhere: it is right when every function that re-dates the active file (writes m_currentLogDate) also drops it
+                def writes(fn_, name_):
+                    return any((x.get("k") == "call" and x.get("op") == "=" and x.get("args") and skip_copies(x["args"][0]).get("k") == "member" and skip_copies(x["args"][0]).get("name") == name_) or
+                               (x.get("k") == "binop" and x.get("op") == "=" and isinstance(x.get("lhs"), dict) and skip_copies(x["lhs"]).get("k") == "member" and skip_copies(x["lhs"]).get("name") == name_)
+                               for x in fn_.all_nodes())
+                flats = {k_: v_ for k_, v_ in S.m.items() if v_ is not None and v_.id != fi.id}
+                droppers = [k_ for k_, v_ in flats.items() if writes(v_, fld)]
+                redaters = [k_ for k_, v_ in flats.items() if writes(v_, RP + "::m_currentLogDate")]
+                if droppers and redaters and all(k_ in droppers for k_ in redaters):
+                    ck.ob(RULE, sitestr(fi, a), None, "the per-date pattern is cached in %s and dropped by every function that re-dates the active file (%s); the cache is not followed further" % (fld.split("::")[-1], ", ".join(sorted(redaters))),
+                          key="findNextIndexForDate|stale-date-pattern")
+                    continue
+            ck.ob(RULE, sitestr(fi, a), False if unguarded_by_date else (None if guards else True),
+                  "the per-date pattern kept in %s is rebuilt at every call" % fld.split("::")[-1] if not guards else
+                  "the pattern for the date asked for is kept in %s and rebuilt only when %s - a condition that does not look at the date: a call for another day (a late record, a restart "
+                  "without daily rotation, a day change inside rotate()) is answered with the first day's pattern, finds no file of the new day and hands out an index that exists" %
+                  (fld.split("::")[-1], describe(guards[0]["cond"])[:60]) if unguarded_by_date else "the per-date pattern is cached in %s under a guard that mentions the date; the cache is not followed" % fld.split("::")[-1],
+                  key="findNextIndexForDate|stale-date-pattern")
+
+
 def next_index(ck, S, RULE):
     """findNextIndexForDate() = 1 + maximum index over every matching directory entry (shared with C05: a reused index
     makes rotate() overwrite or fail on an existing rotated file)"""
     F = ck.facts
     fi = S.m["findNextIndexForDate"]
+    per_date_pattern_is_fresh(ck, S, RULE)
     gf = S.g(fi)
     rs = returns(fi)
     if len(rs) != 1:
